@@ -54,6 +54,12 @@ type Walker[S any] struct {
 	// OnLoopIter is called with the state before and after one full
 	// iteration of a loop body (normal or continue completion).
 	OnLoopIter func(loop ast.Stmt, before, after S)
+	// LoopSummary, when set, replaces the 0/1-iteration exploration: the body
+	// is walked once from `before`; `ends` are the states of the iterations
+	// that complete normally (or by continue); the returned state is the
+	// state after the loop (ok=false kills the path). break/return inside the
+	// body propagate as usual.
+	LoopSummary func(loop ast.Stmt, before S, ends []S) (S, bool)
 	// IsPanic classifies an expression statement as diverging.
 	IsPanic func(s ast.Stmt) bool
 	// Exit receives every path end: return statement, panic, or falling off
@@ -261,8 +267,49 @@ func (w *Walker[S]) loop(s ast.Stmt, label string, st S, k cont[S]) {
 	case *ast.RangeStmt:
 		body, rng = x.Body, x
 	}
-	var iter func(st S, n int)
 	exitLoop := func(st S) { k(st, outcome{kind: cNormal}) }
+	if w.LoopSummary != nil {
+		before := w.Clone(st)
+		var ends []S
+		enter := func(s1 S) {
+			if rng != nil && w.OnRange != nil {
+				var ok bool
+				s1, ok = w.OnRange(s1, rng)
+				if !ok {
+					return
+				}
+			}
+			w.stmts(body.List, s1, func(s2 S, o outcome) {
+				switch {
+				case o.kind == cNormal, o.kind == cContinue && (o.label == "" || o.label == label):
+					s3, ok := w.simple(post, s2)
+					if ok {
+						ends = append(ends, s3)
+					}
+				case o.kind == cBreak && (o.label == "" || o.label == label):
+					exitLoop(s2)
+				default:
+					k(s2, o)
+				}
+			})
+		}
+		if cond != nil {
+			w.cond(cond, w.Clone(st), true, enter)
+		} else {
+			enter(w.Clone(st))
+		}
+		post2, ok := w.LoopSummary(s, before, ends)
+		if !ok {
+			return
+		}
+		if cond != nil {
+			w.cond(cond, post2, false, exitLoop)
+		} else if rng != nil {
+			exitLoop(post2)
+		}
+		return
+	}
+	var iter func(st S, n int)
 	iter = func(st S, n int) {
 		// leave the loop (condition false / range exhausted)
 		if cond != nil {
